@@ -123,10 +123,71 @@ T3 = {
 }
 
 
+# round 4
+T4 = {
+    "C01-r4-redis-requeue-routes-by-reject-mark": (
+        "Redis, requeue of a message held from the DEAD category", True, None, ["C01"]),
+    "C02-r4-timeout-not-waiting-eager-in-cleanup": (
+        "actor exceeding its timeout that answers eagerly while being cancelled", True, None, ["C02"]),
+    "C03-r4-redis-reject-marker-after-details": (
+        "Redis, process death during the three round trips between the take and the payload/parameter fetch", True, None, ["C03"]),
+    "C04-r4-retry-capped-at-next-occurrence": (
+        "recurring job, failing attempt, back-off longer than the time to the next occurrence", True, None, ["C04"]),
+    "C05-r4-redis-reject-delayed-to-normal": (
+        "Redis, not-yet-due message taken through the DELAYED category and rejected", True, None, ["C05"]),
+    "C06-r4-mem-requeue-same-due-setdefault": (
+        "in-memory, two recurring jobs of one queue sharing a time base: the one rescheduled second for a shared slot disappears", False,
+        "C06 fleet-*: 0-2 twin recurring jobs created at the same instant", ["C06"]),
+    "C07-r4-redis-requeue-payload-hsetnx": (
+        "Redis, requeue with a payload different from the stored one", False,
+        "C07 e2e-*: the consumer requeues the held message with a new payload before the worker phase (C01 caught it as stored-payload)",
+        ["C07", "C01"]),
+    "C08-r4-empty-payload-skips-converter": (
+        "PydanticConverter, defaults declared with pydantic.Field(...), job without arguments", False,
+        "C08: Field(default=...) / Field(default_factory=...) defaults for the pydantic converter", ["C08"]),
+    "C09-r4-overdue-after-slot-wait-skips-unpause": (
+        "a time-to-live running out while the fetched message waits for a free slot", False,
+        "C09: jobs with a 1-3 s time-to-live under saturation (expired-and-dead-lettered is not a stall)", ["C09"]),
+    "C10-r4-stop-event-at-mth-start": (
+        "an actor outlasting graceful_shutdown_time after the M-th execution started", False,
+        "C10: graceful periods of 0.3 / 1 s. This exposed the genuine defect D31 on the unchanged tree (same symptom for M >= 2), "
+        "repaired in /repo 9a2e7dd; with the repair this change no longer breaks the property (its demo passes) - retired", ["C10"]),
+    "C11-r4-redis-page-filter-ends-scan": (
+        "Redis, a full fetch window (10) of foreign-topic names at the old end of a shared queue", False,
+        "C11: backlog of 9-25 unserved messages ahead of everything else in one queue (mem / redis)", ["C11"]),
+    "C12-r4-reschedule-timestamp-at-slot": (
+        "rescheduled message with a ttl shorter than the gap to its next slot", False,
+        "oracle weakness, not a generator gap: C12 took the expiry of a rescheduled message from the timestamp the code produced and C06 "
+        "only demanded timestamp >= now; both now demand the clock to restart exactly at the rescheduling", ["C12", "C06"]),
+    "C13-r4-reschedule-drops-result-section": ("result-storing job that is rescheduled, second execution", True, None, ["C13"]),
+    "C14-r4-mem-delayed-promotion-yields": (
+        "in-memory, >= 100 distinct due times promoted at once while a second consumer polls", False,
+        "new C14 sub-checks bulk-*: 100-300 (mostly delayed) messages drained by 2-3 concurrent consumers", ["C14"]),
+    "C15-r4-redis-pause-rejects-prefetched": (
+        "Redis, consumer holding >= 2 prefetched messages, pause() then unpause()", False,
+        "pause / unpause operations in the broker-history interpreter; C15 pause mode (also in C01 / C14 histories)", ["C15"]),
+    "C16-r4-noaction-from-dependency-not-reraised": (
+        "eager response given by a dependency of the actor", False,
+        "scripted provider outcome depeager (gen, model, scenario); C16 sub-check dependency-eager; C02 generates it too", ["C16", "C02"]),
+    "C17-r4-redis-poller-restart-inside-middleware": (
+        "Redis, background polling task crashed by a connection error and restarted from inside consume(), then an overdue message", False,
+        "signal-completeness probe (harness/mwprobe.py) and C17 sub-check redis-background with a transient Redis fault", ["C17"]),
+    "C18-r4-depends-eq-by-provider": (
+        "two Depends objects over one provider function, same annotated type, an override on one of them", False,
+        "C18 graphs may contain alias nodes: another Depends instance over an earlier node's provider", ["C18"]),
+    "C19-r4-redis-bucket-px-ttl": (
+        "Redis bucket stored with a timestamp older than the store call", None,
+        "new C19 sub-check store-redis (bucket expiry as enforced by the Redis bucket broker); Redis model: EX / PX / PXAT", ["C19"]),
+    "C20-r4-decode-errors-ignore": ("request line that becomes GET <endpoint> once invalid UTF-8 bytes are dropped", True, None, ["C20"]),
+}
+RETIRED = {"C10-r4-stop-event-at-mth-start"}
+
+
 def main() -> None:
     last = json.loads((ROOT / ".work" / "seeded_results.json").read_text())
     rows = [(n, 2, needs, first, st, [n[:3]]) for n, (needs, first, st) in T.items()]
     rows += [(n, 3, needs, first, st, checks) for n, (needs, first, st, checks) in T3.items()]
+    rows += [(n, 4, needs, first, st, checks) for n, (needs, first, st, checks) in T4.items()]
     for name, rnd, needs, first, strengthened, checks in rows:
         d = ROOT / "seeded" / name
         pid = name[:3]
@@ -143,6 +204,9 @@ def main() -> None:
             meta["note"] = "not evaluated against the first version: the gap was evident from the description and the generator was strengthened first"
         if strengthened:
             meta["strengthened"] = strengthened
+        if name in RETIRED:
+            meta["retired"] = True
+            meta["result"] = "no longer breaks the property at /repo HEAD (see 'strengthened'); before the repair: caught by C10 quick (execution-cut)"
         (d / "meta.json").write_text(json.dumps(meta, indent=1) + "\n")
         print(name, meta["result"][:90], meta["tests_pass_with_change"], meta["demo_fails_with_change"], meta["demo_passes_without"])
 
